@@ -75,7 +75,9 @@ def generate(seed, tier):
         defs.append(d)
     nproc = r.choice((0, 1, 1, 2, 3))
     n = r.randrange(2, 9)
-    return {"rows": hitcommon.gen_rows(r, n), "defs": defs, "nproc": nproc, "vandal": nproc >= 2 and r.random() < 0.3, "fire_count": r.choice(("1", "2", "-1")),
+    return {"rows": hitcommon.gen_rows(r, n), "defs": defs, "nproc": nproc, "vandal": nproc >= 2 and r.random() < 0.3,
+            # the processors are empty containers (a registry whose len() is its number of series): falsy objects
+            "falsy": nproc >= 1 and r.random() < 0.2, "fire_count": r.choice(("1", "2", "-1")),
             "attach_at": r.randrange(1, n) if r.random() < 0.35 else None, "via": r.choice(("service", "register")),
             "also_snapshot": r.random() < 0.3, "knobs": common.draw_knobs(r, stall_p=0.0)}
 
@@ -193,7 +195,7 @@ def execute(s, ch):
     nproc = s["nproc"]
     # "vandal": the first processor adjusts the labels it is given (renames keys, adds its own): the others' are theirs
     specs = [{"name": "RecMetric%d" % i, "kinds": ["metric"],
-              "label_vandal": bool(s.get("vandal")) and i == 0} for i in range(nproc)]
+              "label_vandal": bool(s.get("vandal")) and i == 0, "falsy": bool(s.get("falsy"))} for i in range(nproc)]
     boot_specs = specs
     attach_at = s["attach_at"] if nproc >= 1 else None
     if attach_at is not None:
